@@ -162,15 +162,22 @@ fn answer(line: &str, cap: usize) -> String {
             let toks: Vec<&str> = line.split(' ').filter(|s| !s.is_empty()).collect();
             catch_unwind(AssertUnwindSafe(|| kzg::answer(&toks))).unwrap_or_else(|_| "panic".to_string())
         }
+        "proverdec" | "ckraw" | "ppdec" | "evalsdec" | "proveruse" => {
+            let (r, peak) = peak_during(|| catch_unwind(AssertUnwindSafe(|| emit::codec_line(line))).unwrap_or_else(|_| "panic".to_string()));
+            format!("{} peak={}", r, peak)
+        }
         "prove" => catch_unwind(AssertUnwindSafe(|| emit::prove_line(line))).unwrap_or_else(|_| "panic".to_string()),
         "verify" | "vroundtrip" | "proofdec" => {
             let toks: Vec<&str> = line.split(' ').filter(|s| !s.is_empty()).collect();
-            catch_unwind(AssertUnwindSafe(|| match toks[0] {
-                "verify" => emit::verify_line(&toks),
-                "vroundtrip" => emit::vroundtrip_line(&toks),
-                _ => emit::proofdec_line(&toks),
-            }))
-            .unwrap_or_else(|_| "panic".to_string())
+            let (r, peak) = peak_during(|| {
+                catch_unwind(AssertUnwindSafe(|| match toks[0] {
+                    "verify" => emit::verify_line(&toks),
+                    "vroundtrip" => emit::vroundtrip_line(&toks),
+                    _ => emit::proofdec_line(&toks),
+                }))
+                .unwrap_or_else(|_| "panic".to_string())
+            });
+            if toks[0] == "verify" { r } else { format!("{} peak={}", r, peak) }
         }
         "tr" | "g1dec" | "g2dec" | "g1mul" | "g1add" | "g2mul" => {
             let toks: Vec<&str> = line.split(' ').filter(|s| !s.is_empty()).collect();
@@ -195,6 +202,13 @@ fn main() {
                     continue;
                 }
                 writeln!(out, "{}", answer(&line, cap)).unwrap();
+            }
+        }
+        Some("encodings") => {
+            for l in std::io::stdin().lock().lines() {
+                for o in emit::encodings(&l.expect("stdin")) {
+                    println!("{}", o);
+                }
             }
         }
         Some("compress") => {
